@@ -814,9 +814,9 @@ func assumed(p *smPath) map[string]bool {
 func init() {
 	register(&Rule{
 		Name:  "SM-guards",
-		Doc:   "setter-specific decisions of the state machine (refuse / fail / write), read off the extracted paths as a boolean function of the conditions they evaluate, equal the standard's formula on every assignment of the atoms (truth table; semantic, independent of how the condition is written)",
-		Props: []string{"C05", "C04", "C03"},
-		Floor: 2,
+		Doc:   "decisions of the state machine (what a setter refuses / fails / writes; which path operations end a segment), read off the extracted paths as a function of the conditions they evaluate, equal the standard's formulas on every assignment of the atoms (truth table; semantic, independent of how the conditions are written)",
+		Props: []string{"C05", "C04", "C03", "C01", "C18"},
+		Floor: 3,
 		Run: func(c *Ctx, s *core.Sink) {
 			m := BuildSM(c)
 			if smProblems(m, s) {
@@ -824,25 +824,32 @@ func init() {
 			}
 			var spec struct {
 				Guards []struct {
-					ID       string            `json:"id"`
-					Spec     string            `json:"spec"`
-					Contexts []string          `json:"contexts"`
-					States   []string          `json:"states"`
-					RClass   []string          `json:"rclass"`
-					Target   string            `json:"target"`
-					Requires map[string]bool   `json:"requires"`
-					Atoms    map[string]string `json:"atoms"`
-					Refuse   string            `json:"refuse"`
-					Fail     string            `json:"fail"`
-					Props    []string          `json:"props"`
+					ID        string            `json:"id"`
+					Spec      string            `json:"spec"`
+					Contexts  []string          `json:"contexts"`
+					States    []string          `json:"states"`
+					RClass    []string          `json:"rclass"`
+					Observe   string            `json:"observe"`
+					Requires  map[string]bool   `json:"requires"`
+					AppliesIf []string          `json:"applies_if"`
+					Atoms     map[string]string `json:"atoms"`
+					Outcomes  map[string]string `json:"outcomes"`
+					Props     []string          `json:"props"`
 				} `json:"guards"`
 			}
 			readSpec(c, "guards.json", &spec)
 			for _, g := range spec.Guards {
-				refuse, err1 := parseBool(g.Refuse)
-				fail, err2 := parseBool(g.Fail)
-				if err1 != nil || err2 != nil {
-					s.Unknown("guards/"+g.ID, "-", fmt.Sprintf("spec formula does not parse: %v %v", err1, err2), g.Props...)
+				forms := map[string]boolExpr{}
+				bad := ""
+				for o, src := range g.Outcomes {
+					f, err := parseBool(src)
+					if err != nil {
+						bad = fmt.Sprintf("formula of outcome %q does not parse: %v", o, err)
+					}
+					forms[o] = f
+				}
+				if bad != "" {
+					s.Unknown("guards/"+g.ID, "-", bad, g.Props...)
 					continue
 				}
 				var names []string
@@ -852,6 +859,10 @@ func init() {
 					byText[t] = n
 				}
 				sort.Strings(names)
+				obsKind, obsField := g.Observe, ""
+				if i := strings.Index(g.Observe, ":"); i >= 0 {
+					obsKind, obsField = g.Observe[:i], g.Observe[i+1:]
+				}
 				for _, cxName := range g.Contexts {
 					key := "guards/" + g.ID + "/" + cxName
 					type cand struct {
@@ -893,17 +904,18 @@ func init() {
 								skip = true
 							}
 						}
-						if skip {
-							continue
-						}
-						// validation failures under fail-on-validation-error are not decisions of the guard
-						nonFatal := false
-						for _, h := range p.Handlers {
-							if h.Taken == triT && !(h.Site.FailKnown && h.Site.Failure) {
-								nonFatal = true
+						for _, n := range g.AppliesIf {
+							if _, ok := as[g.Atoms[n]]; !ok {
+								skip = true
 							}
 						}
-						if nonFatal {
+						// validation failures under fail-on-validation-error are not decisions of the guard
+						for _, h := range p.Handlers {
+							if h.Taken == triT && !(h.Site.FailKnown && h.Site.Failure) {
+								skip = true
+							}
+						}
+						if skip {
 							continue
 						}
 						asg := map[string]bool{}
@@ -914,37 +926,86 @@ func init() {
 								unknownAtoms[k] = true
 							}
 						}
-						outcome := "write"
-						wrote := false
-						for _, e := range p.Effects {
-							if e.Field == g.Target {
-								wrote = true
+						// pseudo-atoms on the current code point
+						for n, t := range g.Atoms {
+							if !strings.HasPrefix(t, "r:") {
+								continue
+							}
+							cls := strings.TrimPrefix(t, "r:")
+							has := false
+							for _, rc := range p.RClass {
+								if rc == cls {
+									has = true
+								}
+							}
+							switch {
+							case has && len(p.RClass) == 1:
+								asg[n] = true
+							case !has:
+								asg[n] = false
 							}
 						}
-						failed := false
-						for _, h := range p.Handlers {
-							if h.Taken == triT && h.Site.FailKnown && h.Site.Failure {
-								failed = true
+						outcome := ""
+						pos := p.RetPos
+						switch obsKind {
+						case "setter":
+							wrote, failed := false, false
+							for _, e := range p.Effects {
+								if e.Field == obsField {
+									wrote = true
+								}
 							}
+							for _, h := range p.Handlers {
+								if h.Taken == triT && h.Site.FailKnown && h.Site.Failure {
+									failed = true
+								}
+							}
+							switch {
+							case wrote:
+								outcome = "write"
+							case p.Returned && p.RetKind == "fail" && failed:
+								outcome = "fail"
+							case p.Returned && p.RetKind == "fail":
+								outcome = "write" // the component's own parser was tried and rejected the value
+							case p.Returned:
+								outcome = "refuse"
+							default:
+								outcome = "write" // the state goes on towards writing the component
+							}
+						case "ops":
+							var ops []string
+							for _, e := range p.Effects {
+								if e.Field != obsField {
+									continue
+								}
+								if pos == 0 {
+									pos = e.Pos
+								}
+								switch {
+								case strings.HasPrefix(e.Kind, "call:"):
+									op := strings.TrimPrefix(e.Kind, "call:")
+									if e.Args != "" && !strings.Contains(e.Args, "url.scheme") {
+										op += "(" + e.Args + ")"
+									}
+									ops = append(ops, op)
+								default:
+									ops = append(ops, e.Kind)
+								}
+							}
+							outcome = strings.Join(ops, "+")
+							if outcome == "" {
+								outcome = "none"
+							}
+						default:
+							outcome = "?"
 						}
-						switch {
-						case p.Returned && p.RetKind == "fail" && !wrote && !failed:
-							outcome = "write" // the component's own parser was tried and rejected the value
-						case p.Returned && p.RetKind == "fail" && !wrote:
-							outcome = "fail"
-						case p.Returned && !wrote:
-							outcome = "refuse"
-						case !wrote:
-							outcome = "continue"
-						}
-						cands = append(cands, cand{asg, outcome, c.P.Pos(p.RetPos)})
+						cands = append(cands, cand{asg, outcome, c.P.Pos(pos)})
 					}
 					if len(cands) == 0 {
-						s.Unknown(key, "-", "no path of the state machine matches this guard (state / code point class)", g.Props...)
+						s.Unknown(key, "-", "no path of the state machine matches this decision (state / code point class / conditions evaluated)", g.Props...)
 						continue
 					}
-					// atoms the code evaluates that the formula does not know: only harmless if the outcome never depends on them
-					var bad []string
+					var bads []string
 					rows, checked := 1<<uint(len(names)), 0
 					for mask := 0; mask < rows; mask++ {
 						env := map[string]bool{}
@@ -966,31 +1027,39 @@ func init() {
 						if len(outs) == 0 {
 							continue
 						}
-						checked++
-						wantRefuse, _ := refuse(env)
-						wantFail, _ := fail(env)
-						want := "write"
-						switch {
-						case wantFail:
-							want = "fail"
-						case wantRefuse:
-							want = "refuse"
-						}
-						for o, pos := range outs {
-							if o == "continue" {
-								o = "write" // the state goes on towards writing the component
+						var want []string
+						anyOK := false
+						for o, f := range forms {
+							if v, _ := f(env); v {
+								if o == "*" {
+									anyOK = true
+								}
+								want = append(want, o)
 							}
-							if o != want && len(bad) < 4 {
+						}
+						sort.Strings(want)
+						if anyOK {
+							continue
+						}
+						checked++
+						for o, pos := range outs {
+							okO := false
+							for _, w := range want {
+								if w == o {
+									okO = true
+								}
+							}
+							if !okO && len(bads) < 3 {
 								var parts []string
 								for _, n := range names {
 									parts = append(parts, fmt.Sprintf("%s=%v", g.Atoms[n], env[n]))
 								}
-								bad = append(bad, fmt.Sprintf("with %s the parser would %s (at %s), the standard says %s", strings.Join(parts, ", "), o, pos, want))
+								bads = append(bads, fmt.Sprintf("with %s the parser does %q (at %s), the standard says %q", strings.Join(parts, ", "), o, pos, strings.Join(want, " or ")))
 							}
 						}
 					}
-					if len(bad) > 0 {
-						s.Bad(key, "-", strings.Join(bad, "; "), g.Props...)
+					if len(bads) > 0 {
+						s.Bad(key, "-", strings.Join(bads, "; "), g.Props...)
 						continue
 					}
 					var unk []string
@@ -998,7 +1067,11 @@ func init() {
 						unk = append(unk, k)
 					}
 					sort.Strings(unk)
-					s.OK(key, "-", fmt.Sprintf("%d of %d assignments select a path; every decision equals the standard's (%s)%s", checked, rows, g.Spec, map[bool]string{true: "; other conditions evaluated: " + strings.Join(unk, ", "), false: ""}[len(unk) > 0]), g.Props...)
+					extra := ""
+					if len(unk) > 0 {
+						extra = "; other conditions evaluated: " + strings.Join(unk, ", ")
+					}
+					s.OK(key, "-", fmt.Sprintf("%d paths; %d of %d assignments decided, each as in the standard (%s)%s", len(cands), checked, rows, g.Spec, extra), g.Props...)
 				}
 			}
 		},
